@@ -844,6 +844,25 @@ func phaseHistory(t *testing.T, e *env, rng *rand.Rand, out *hx.Out) {
 	for sq := 0; sq < seqs; sq++ {
 		cctx, _ := e.s.Ctx.CacheContext()
 		out.Reset()
+		// scenario class: the validator has been SLASHED before the history starts (one share is worth less than one token), so
+		// that "shares moved" and "tokens moved" differ in every allowance-consuming transfer; such sequences use the
+		// share-denominated methods only (delegate / undelegate would create fractional shares the 1:1 model does not have)
+		slashed := false
+		if sq >= len(corpus) && sq%3 == 2 {
+			if val, err := app.StakingKeeper.GetValidator(cctx, e.s.ValAddr[0]); err == nil {
+				cons, _ := val.GetConsAddr()
+				pct := []int64{1, 10, 33, 50}[rng.Intn(4)]
+				if r := hx.Try(func() error {
+					_, err := app.StakingKeeper.Slash(cctx, cons, cctx.BlockHeight(), val.GetConsensusPower(app.StakingKeeper.PowerReduction(cctx)), sdkmath.LegacyNewDecWithPrec(pct, 2))
+					return err
+				}); r == "ok" {
+					slashed = true
+					out.Count(fmt.Sprintf("hist:sequence-on-slashed-validator:%d%%", pct))
+				} else {
+					out.Count("hist:slash-failed:" + r)
+				}
+			}
+		}
 		for _, a := range accts {
 			out.Emit(fmt.Sprintf("set shares %d %s", a.id, e.sharesOf(cctx, a.addr)), "ok")
 			out.Emit(fmt.Sprintf("set bal %d %s", a.id, app.BankKeeper.GetBalance(cctx, a.addr.Bytes(), fxtypes.DefaultDenom).Amount), "ok")
@@ -905,6 +924,9 @@ func phaseHistory(t *testing.T, e *env, rng *rand.Rand, out *hx.Out) {
 			roll := rng.Intn(100)
 			var entries []string
 			scripted := sq < len(corpus)
+			if slashed && !scripted && roll >= 70 && roll < 79 {
+				roll = 25 + rng.Intn(45) // no delegate / undelegate on a slashed validator: an allowance-consuming or plain share transfer instead
+			}
 			if scripted {
 				// h <kind> <caller> <origin> <addr> <mid> <entries|-> <method> <args…>
 				f := strings.Fields(corpus[sq][k])
@@ -1173,6 +1195,8 @@ func phaseHistory(t *testing.T, e *env, rng *rand.Rand, out *hx.Out) {
 				entries = nil
 				e.setSwitch(t, cctx, []string{})
 			}
+			// a call whose own frame returns normally but is dropped by the EVM afterwards (class: "granted / moved in a reverted frame")
+			undo := !scripted && strings.HasSuffix(rt.name, ">y") && kind == evmx.KCall && method != "view" && rng.Intn(5) == 0
 			// build the transaction along the route
 			sender := byID[rt.origin].signer
 			var tx *evmtypes.MsgEthereumTx
@@ -1189,7 +1213,12 @@ func phaseHistory(t *testing.T, e *env, rng *rand.Rand, out *hx.Out) {
 				}
 				nodes := []*evmx.Node{nd}
 				if strings.HasSuffix(rt.name, ">y") {
-					nodes = []*evmx.Node{{Op: "call", ID: 1, Kind: evmx.KCall, To: e.y, Swallow: true, Body: []*evmx.Node{nd}}}
+					body := []*evmx.Node{nd}
+					if undo {
+						// the frame that made the call REVERTs afterwards; its caller catches that and the transaction succeeds
+						body = append(body, &evmx.Node{Op: "revert", ID: 3})
+					}
+					nodes = []*evmx.Node{{Op: "call", ID: 1, Kind: evmx.KCall, To: e.y, Swallow: true, Body: body}}
 					preFrame = 2
 				}
 				if err := evmx.InstallTree(cctx, app, e.x, nodes); err != nil {
@@ -1229,6 +1258,9 @@ func phaseHistory(t *testing.T, e *env, rng *rand.Rand, out *hx.Out) {
 			status := hStatus(errText)
 			if method != "transferShares" && method != "transferFromShares" && strings.HasPrefix(status, "ran:err") {
 				status = "ran:err"
+			}
+			if undo && status == "ran:ok" {
+				status = "undone"
 			}
 			succeeded := status == "ran:ok"
 			// observation
@@ -1274,12 +1306,22 @@ func phaseHistory(t *testing.T, e *env, rng *rand.Rand, out *hx.Out) {
 			default:
 				obs = "-"
 			}
-			out.Emit(fmt.Sprintf("h %s %d %d %s %s %s %s %s", kind, rt.caller, rt.origin, to.Hex(), mid, entStr(entries), method, argStr), status+" "+obs)
+			opw := "h"
+			if status == "undone" {
+				opw = "hu"
+			}
+			out.Emit(fmt.Sprintf("%s %s %d %d %s %s %s %s %s", opw, kind, rt.caller, rt.origin, to.Hex(), mid, entStr(entries), method, argStr), status+" "+obs)
 			out.Count("hist:" + method + ":" + status)
+			if slashed {
+				out.Count("hist:on-slashed-validator:" + method + ":" + status)
+			}
 			out.Count("hist:route:" + rt.name + ":" + kind.String())
 			out.Nontrivial(fmt.Sprintf("h|%s|%s|%s|%s|%v", method, rt.name, kind, status, len(entries) > 0))
 			// monitors
 			changed := hx.DiffDump(dumpBefore, e.dump(cctx))
+			if status == "undone" && len(changed) > 0 {
+				violate(out, "a precompile call made in a frame that REVERTed afterwards (caught by its caller, the transaction succeeded) changed Cosmos stores "+fmt.Sprint(changed)+": what was granted / moved in a dropped frame must not exist: "+desc)
+			}
 			if strings.HasPrefix(status, "blocked") && len(changed) > 0 {
 				violate(out, "blocked precompile call changed Cosmos stores "+fmt.Sprint(changed)+" "+desc)
 			}
@@ -1341,14 +1383,21 @@ func entriesOrEmpty(e []string) []string {
 func TestC10(t *testing.T) {
 	rng := rand.New(rand.NewSource(hx.Seed()))
 	out := hx.NewOut()
-	defer out.Close("dispatch: every method of both precompiles (13 state-changing incl. third-party / tx-origin argument variants, 4 views) x CALL/STATICCALL/DELEGATECALL/CALLCODE x governance switch lists set through the real MsgUpdateSwitchParams handler (none, single entries in every letter case, near misses, 2..7 entries with several entries for one precompile address and the matching one at any position) x allowance 0 / amount-1 / amount / amount+1 / large / 2^256-2 / 2^256-1; nested STATICCALL->CALL. histories: sequences of real signed transactions by EOAs directly, contracts, contracts acting for the user that called them (one and two frames deep): approveShares (boundary amounts incl. 2^256-1) / repeated transferFromShares / transferShares / delegate / undelegate / withdraw / cancelSendToExternal / increaseBridgeFee / views, under random call kinds and switch lists; model and real allowance, shares and pool compared after every step; portfolios of every non-caller (tx origin included) before/after. non-trivial = distinct (method, kind/route, switch class, outcome)")
+	defer out.Close("dispatch: every method of both precompiles (13 state-changing incl. third-party / tx-origin argument variants, 4 views) x CALL/STATICCALL/DELEGATECALL/CALLCODE x governance switch lists set through the real MsgUpdateSwitchParams handler (none, single entries in every letter case, near misses, 2..7 entries with several entries for one precompile address and the matching one at any position) x allowance 0 / amount-1 / amount / amount+1 / large / 2^256-2 / 2^256-1; nested STATICCALL->CALL. histories: sequences of real signed transactions by EOAs directly, contracts, contracts acting for the user that called them (one and two frames deep): approveShares (boundary amounts incl. 2^256-1) / repeated transferFromShares / transferShares / delegate / undelegate / withdraw / cancelSendToExternal / increaseBridgeFee / views, under random call kinds and switch lists; model and real allowance, shares and pool compared after every step; portfolios of every non-caller (tx origin included) before/after. tokens: crossChain with an ERC-20 token (coin-backed WFX, contract-owned TST) by EOAs directly, contracts, contracts one and two frames below the holder that called them, totals at allowance/balance -1/0/+1 and at what the TX ORIGIN could pay; ERC-20 balances and allowances to the precompile of every non-caller before/after, the direct caller's compared with the regenerated ERC-20 leg. non-trivial = distinct (method, kind/route, switch class, outcome)")
 	e := setup(t)
-	only := os.Getenv("VERIF_C10_PHASE") // debugging aid: "dispatch" or "history" runs one phase only
+	only := os.Getenv("VERIF_C10_PHASE") // debugging aid: "dispatch", "history" or "tokens" runs one phase only
+	if only == "tokens" {
+		phaseTokens(t, e, rng, out)
+		return
+	}
 	if only != "history" {
 		phaseDispatch(t, e, rng, out)
 		phaseMalformed(t, e, rng, out)
 	}
 	if only != "dispatch" {
 		phaseHistory(t, e, rng, out)
+	}
+	if only == "" {
+		phaseTokens(t, e, rng, out)
 	}
 }
